@@ -1,5 +1,6 @@
 import PersimVerif.Lemmas.PNormSup
 import PersimVerif.Lemmas.PNormStab
+import PersimVerif.Lemmas.PNormMink
 import Mathlib.Analysis.SpecialFunctions.Pow.Real
 import Mathlib.Tactic.NormNum
 
@@ -125,7 +126,7 @@ theorem pnorm_pow_nonneg (p : ℕ) (cps : List (List (ℝ × ℝ))) (hs : ∀ l 
 
 /-! ### the guard -/
 
-theorem strictAbsc_cons_cons {a b : ℝ × ℝ} {r : List (ℝ × ℝ)} (hab : a.1 < b.1)
+private theorem strictAbsc_cons_cons {a b : ℝ × ℝ} {r : List (ℝ × ℝ)} (hab : a.1 < b.1)
     (h : StrictAbsc (b :: r)) : StrictAbsc (a :: b :: r) := by
   refine List.pairwise_cons.mpr ⟨?_, h⟩
   intro c hc
@@ -543,15 +544,47 @@ example : ∀ l ∈ ([[(0, 0), (2, 0), (4, 0)], [(1, 0), (3, 0)]] : List (List (
 example : checkP (5/2 : ℝ) = .norm := (p_validation _).2.2.mpr (by norm_num)
 example : checkP (-1/2 : ℝ) = .reject := (p_validation _).1.mpr (Or.inr ⟨by norm_num, by norm_num⟩)
 
-/-! ### clause that is *not* decided by a theorem here (kept visible; tested on the real code, [T]) -/
+/-! ### triangle inequality (Minkowski) -/
 
-/-- Minkowski's inequality for the landscape norm: a property of the integral the theorems above identify
-    the value with.  Not proved here — [T] (triangle law on triples of real landscapes). -/
-def TriangleInequality : Prop :=
-  ∀ (p : ℕ), 1 ≤ p → ∀ (f g h : List (List (ℝ × ℝ))),
-    (∀ l ∈ f, StrictAbsc l) → (∀ l ∈ g, StrictAbsc l) → (∀ l ∈ h, StrictAbsc l) →
-    (∀ k t, evalDepth h k t = evalDepth f k t + evalDepth g k t) →
-    (pNormPow p h) ^ ((1 : ℝ) / p) ≤ (pNormPow p f) ^ ((1 : ℝ) / p) + (pNormPow p g) ^ ((1 : ℝ) / p)
+/-- **pnorm_triangle**: if the landscape `h` represents the depth-wise sum of `f` and `g`
+    (what `__add__` produces, C09), then `‖h‖_p ≤ ‖f‖_p + ‖g‖_p` for every natural `p ≥ 1`
+    (Minkowski in `L^p(ℝ)` for each depth, then in `ℓ^p` over the depths). -/
+theorem pnorm_triangle (p : ℕ) (hp : 1 ≤ p) (f g h : List (List (ℝ × ℝ)))
+    (hf : ∀ l ∈ f, StrictAbsc l) (hg : ∀ l ∈ g, StrictAbsc l) (hh : ∀ l ∈ h, StrictAbsc l)
+    (hsum : ∀ k t, evalDepth h k t = evalDepth f k t + evalDepth g k t) :
+    (pNormPow p h) ^ ((1 : ℝ) / p) ≤ (pNormPow p f) ^ ((1 : ℝ) / p) + (pNormPow p g) ^ ((1 : ℝ) / p) := by
+  set N := max (max f.length g.length) h.length with hN
+  have e : ∀ x : List (List (ℝ × ℝ)), (∀ l ∈ x, StrictAbsc l) → x.length ≤ N →
+      pNormPow p x = ∑ k ∈ Finset.range N, depthInt p x k := by
+    intro x hx hlen
+    rw [pnorm_pow_eq_sum_depths p hp x hx]
+    exact sum_depthInt_extend p hp x N hlen
+  rw [e f hf (le_trans (le_max_left _ _) (le_max_left _ _)),
+    e g hg (le_trans (le_max_right _ _) (le_max_left _ _)), e h hh (le_max_right _ _)]
+  exact sum_depthInt_triangle p hp f g h hf hg hh hsum N
+
+theorem evalDepth_scale (c : ℝ) (cps : List (List (ℝ × ℝ))) (k : ℕ) (t : ℝ) :
+    evalDepth (scaleCps c cps) k t = c * evalDepth cps k t := by
+  unfold evalDepth scaleCps
+  rw [List.getElem?_map]
+  cases cps[k]? with
+  | none => simp
+  | some l => simp [evalPL_scale]
+
+/-- non-vacuity of `pnorm_triangle`: for every well-formed `f`, the triple `f`, `2·f`, `3·f` meets the
+    hypotheses (and so do sign-changing combinations such as `f`, `−2·f`, `−f`) -/
+example (f : List (List (ℝ × ℝ))) (hf : ∀ l ∈ f, StrictAbsc l) :
+    (∀ l ∈ scaleCps 2 f, StrictAbsc l) ∧ (∀ l ∈ scaleCps 3 f, StrictAbsc l) ∧
+    ∀ k t, evalDepth (scaleCps 3 f) k t = evalDepth f k t + evalDepth (scaleCps 2 f) k t := by
+  refine ⟨?_, ?_, ?_⟩
+  · intro l hl
+    obtain ⟨l0, hl0, rfl⟩ := List.mem_map.mp hl
+    exact strictAbsc_scale 2 l0 (hf l0 hl0)
+  · intro l hl
+    obtain ⟨l0, hl0, rfl⟩ := List.mem_map.mp hl
+    exact strictAbsc_scale 3 l0 (hf l0 hl0)
+  · intro k t
+    rw [evalDepth_scale, evalDepth_scale]; ring
 
 /-! ### stability of the landscape under a partial matching (the bottleneck clause) -/
 
